@@ -8,6 +8,8 @@
    returned and every effect task has ended; the reducer has left its loop or idles in recv on an
    open, empty queue. (Programs are the straight-line call sequences of the model; a callback that
    calls back into the store is an effect body, which is covered.)
+   C13_channels_deadlock_free: the same for the whole API except state iterators, channeled
+   subscribers with unsubscribe and the shutdown release included (WorldLive2.v).
    C13_iter_drop_refuted: the full statement is FALSE of the code as it stands: releasing a state
    iterator before it has returned None reaches a world in which no thread can ever step (known
    finding F5) - which is why channeled subscribers and iterators are outside the fragment. For
@@ -15,7 +17,7 @@
    blocked thread waits for), and the decision on the code is engine L's (probes on every blocking
    edge; a thread that does not arrive where the model says it can run is reported with its
    schedule) plus the C13 monitor. *)
-From RS Require Import Base Channel Pipeline Script World Instance Hist WorldBlock WorldLive WorldLocks Witness.
+From RS Require Import Base Channel Pipeline Script World Instance Hist WorldBlock WorldLive WorldLocks WorldFlush WorldSids WorldLive2 Witness.
 
 Section C13.
 Context {State : Type}.
@@ -69,6 +71,31 @@ Proof.
   intros reducers mws progs w C L F R B. exact (core_deadlock_free cfg C reducers mws progs w L F R B).
 Qed.
 
+(* the whole API except state iterators - channeled subscribers included: programs without
+   iterator calls, whose registration calls carry pairwise distinct identifiers and whose
+   subscription channels have capacity >= 1; any number of threads, any policy, any schedule.
+   A reachable world in which no thread can step: every call has returned, every task has ended;
+   the reducer is gone or idle on an open empty queue; every channeled subscriber's thread has
+   ended or is idle on its open, empty channel *)
+Theorem C13_channels_deadlock_free : forall reducers mws progs w,
+  0 < cfg_cap cfg -> length progs <= 100 ->
+  Forall (Forall (fun c => match c with CIter _ _ _ | CNext _ | CDropIter _ | CDrain _ => False | _ => True end)) progs ->
+  Forall (Forall (fun c => match c with CSubscribed _ n _ | CIter _ n _ => 0 < n | _ => True end)) progs ->
+  NoDup (flat_map (flat_map (fun c => match c with
+                                      | CAddSubscriber s | CSubscribeSelector s _ | CSubscribed s _ _ | CIter s _ _ => [s]
+                                      | _ => []
+                                      end)) progs) ->
+  reachable cfg reducers mws progs w ->
+  (forall t, step cfg w t = None) ->
+  forall t th, get_thread (w_threads w) t = Some th ->
+    thread_finished th = true \/
+    (t = reducer_tid /\ th = TReducer RRecv /\ q (w_dq w) = [] /\ tx_alive (w_dq w) = true) \/
+    (exists sid c, th = TChan sid false /\ get_chan (w_chans w) sid = Some c /\ q c = [] /\ tx_alive c = true).
+Proof.
+  intros reducers mws progs w C L F1 F2 D R B.
+  exact (channels_deadlock_free cfg C reducers mws progs w L (conj F1 (conj F2 D)) R B).
+Qed.
+
 (* the locks of the model are locks: in every reachable world the dispatch lock and the
    subscribers lock are each held by at most one thread *)
 Theorem C13_locks_exclusive : forall reducers mws progs w, reachable cfg reducers mws progs w ->
@@ -92,5 +119,6 @@ Proof. exact Witness.C13_iter_drop_refuted. Qed.
 Print Assumptions C13_wait_for_edges_partial.
 Print Assumptions C13_never_waits.
 Print Assumptions C13_core_deadlock_free.
+Print Assumptions C13_channels_deadlock_free.
 Print Assumptions C13_locks_exclusive.
 Print Assumptions C13_iter_drop_refuted.
